@@ -17,6 +17,9 @@ ASSUMPTIONS = [
     "of the harness, validated only through the differential run",
     "bytes AND a close piling up while the io read task is paused (service not ready) are not generated: what "
     "ntex-io's in-memory transport does with them is not modelled",
+    "while write back-pressure may be on (a 1100-byte response was produced for a peer that accepts nothing) "
+    "undecodable frames and failing handlers are not generated until the peer accepts bytes again: the order in "
+    "which the dispatcher reports two causes that pile up during Backpressure is not modelled",
     "write back-pressure is produced with 1100-byte responses against a 1024-byte write-buffer watermark and a peer "
     "that accepts either nothing or everything",
 ]
